@@ -191,3 +191,14 @@ pub fn run(line: &str) -> Obs {
     });
     r.unwrap_or(vec![vec![99]])
 }
+
+/// Family `hint` (C10): `<len> <prev_capacity>` -> [hint] (99 = panic)
+pub fn run_hint(line: &str) -> Obs {
+    let t: Vec<&str> = line.split_whitespace().collect();
+    let len: usize = t[0].parse::<u128>().unwrap().min(usize::MAX as u128) as usize;
+    let prev: usize = t[1].parse::<u128>().unwrap().min(usize::MAX as u128) as usize;
+    match catch(|| owning_iovec::ByteArena::verif_find_hint_size(len, prev)) {
+        Ok(h) => vec![vec![h as i128]],
+        Err(_) => vec![vec![99]],
+    }
+}
